@@ -20,13 +20,24 @@ Days == IF Level = 1 THEN {0, 1, 28, 29, 30, 31, 32} ELSE 0..32
 GridDates == {DateS(y, m, d) : y \in Years, m \in Months, d \in Days}
 TimeS(h, mi, s) == D2(h) \o <<58>> \o D2(mi) \o <<58>> \o D2(s)
 Times == {TimeS(h, mi, s) : h \in {0, 12, 23, 24}, mi \in {0, 59, 60}, s \in {0, 59}}
-Zones == {<<90>>, <<43>> \o D2(0) \o <<58>> \o D2(0), <<45>> \o D2(23) \o <<58>> \o D2(59), <<43>> \o D2(1) \o <<58>> \o D2(60), <<>>, <<46, 53, 90>>, <<46, 90>>}
+Zones == {<<90>>, <<43>> \o D2(0) \o <<58>> \o D2(0), <<45>> \o D2(23) \o <<58>> \o D2(59), <<43>> \o D2(1) \o <<58>> \o D2(60), <<>>, <<46, 53, 90>>, <<46, 90>>,
+          <<43>> \o D2(24) \o <<58>> \o D2(0), <<44, 53, 90>>, <<46, 53>> \o <<43>> \o D2(2) \o <<58>> \o D2(30)}       \* +24:00 ; a comma before the fraction ; .5+02:30
+\* fields written with one digit where the format wants two (hour, minute, second, month, day, offset hour)
+D1(n) == <<48 + n>>
+ShortForms == { DateS(2023, 12, 31) \o <<84>> \o D1(3) \o <<58>> \o D2(59) \o <<58>> \o D2(59) \o <<90>>,
+                DateS(2023, 12, 31) \o <<84>> \o D2(3) \o <<58>> \o D1(9) \o <<58>> \o D2(59) \o <<90>>,
+                DateS(2023, 12, 31) \o <<84>> \o D2(3) \o <<58>> \o D2(59) \o <<58>> \o D1(9) \o <<90>>,
+                D4(2023) \o <<45>> \o D1(1) \o <<45>> \o D2(31) \o <<84>> \o TimeS(3, 59, 59) \o <<90>>,
+                D4(2023) \o <<45>> \o D2(12) \o <<45>> \o D1(1) \o <<84>> \o TimeS(3, 59, 59) \o <<90>>,
+                DateS(2023, 12, 31) \o <<84>> \o TimeS(3, 59, 59) \o <<43>> \o D1(2) \o <<58>> \o D2(0),
+                D2(23) \o <<45>> \o D2(12) \o <<45>> \o D2(31) \o <<84>> \o TimeS(3, 59, 59) \o <<90>>,
+                D4(2023) \o <<45>> \o D1(1) \o <<45>> \o D2(31), D4(2023) \o <<45>> \o D2(12) \o <<45>> \o D1(1) }
 CoreDates == {DateS(2024, 2, 29), DateS(2023, 2, 29), DateS(2023, 12, 31), DateS(2023, 4, 31), DateS(2023, 0, 10), DateS(2023, 13, 1)}
 GridDateTimes == {d \o <<84>> \o t \o z : d \in CoreDates, t \in Times, z \in Zones}
 \* uuid: one position of a valid sample replaced by one character of each class; wrong lengths
 UuidSweep == {[SUuid EXCEPT ![i] = b] : i \in DOMAIN SUuid, b \in {48, 102, 70, 103, 71, 45, 32}}
 UuidLens == {SubSeq(SUuid, 1, 35), SUuid \o <<48>>, SubSeq(SUuid, 2, 36)}
-Docs == {StrD(c) : c \in GridDates \cup GridDateTimes \cup UuidSweep \cup UuidLens}
+Docs == {StrD(c) : c \in GridDates \cup GridDateTimes \cup ShortForms \cup UuidSweep \cup UuidLens}
 DocSeq == SetToSeq(Docs)
 Schemas == {Lit(StrD(SDate), <<R("type", IdV("date"))>>), Lit(StrD(SDateTime), <<R("type", IdV("datetime"))>>), Lit(StrD(SUuid), <<R("type", IdV("uuid"))>>)}
 
